@@ -598,6 +598,17 @@ func runC08(r *Run) {
 					}
 					continue
 				}
+				// (2) written on the remainder: `rest == ""` with rest from strings.CutPrefix(path, prefix) — the path is the prefix
+				if str, ok := constString(br.Info.Const); ok && str == "" {
+					if ex, ok := stripValue(br.Info.Root).(*ssa.Extract); ok && ex.Index == 0 {
+						if c, ok := ex.Tuple.(*ssa.Call); ok && strings.HasSuffix(calleeName(&c.Call), ".CutPrefix") {
+							if sl, ok := br.slotFor(token.EQL); ok {
+								cut[edge{br.If.Block(), sl}] = true
+							}
+						}
+					}
+					continue
+				}
 				if br.Info.Other != nil {
 					a, b := br.Info.Root, br.Info.Other
 					op := br.Info.Op
@@ -1110,6 +1121,18 @@ func prefixTestsIn(f *ssa.Function) []prefixTest {
 	var out []prefixTest
 	for _, c := range callsMatching(f, false, nameIs("strings.HasPrefix")) {
 		out = append(out, prefixTest{c.Common.Args[0], c.Common.Args[1], c.Value(), true, c.Instr})
+	}
+	// strings.CutPrefix(hay, needle): the `found` result is the prefix test
+	for _, c := range callsMatching(f, false, nameIs("strings.CutPrefix", "bytes.CutPrefix")) {
+		cv := c.Value()
+		if cv == nil || cv.Referrers() == nil {
+			continue
+		}
+		for _, u := range *cv.Referrers() {
+			if e, ok := u.(*ssa.Extract); ok && e.Index == 1 {
+				out = append(out, prefixTest{c.Common.Args[0], c.Common.Args[1], e, true, c.Instr})
+			}
+		}
 	}
 	for _, g := range append([]*ssa.Function{f}, helpersOf(f)...) {
 		for _, b := range g.Blocks {
